@@ -99,10 +99,10 @@ def main():
             "add_only": True,
         },
         "engines": [{"name": "vlib", "path": "vlib/", "serves_properties": sorted(c["property_id"] for c in checks),
-                     "kind_free_text": "Python runtime-monitoring harness: seeded workload generators, boundary spies, icontract contracts, audit-hook file-event logs, sys.monitoring failpoints, controlled scheduler, sharded runner with three-valued verdicts"}],
+                     "kind_free_text": "Python runtime-monitoring harness: seeded workload generators, boundary spies, icontract contracts, audit-hook file-event logs, sys.monitoring failpoints, controlled scheduler, call-history (purity) monitor around every case, sharded runner with three-valued verdicts"}],
         "checks": checks,
         "not_applicable": na,
-        "notes": "All checks import the repository from $VERIF_REPO/src (default /repo/src) at run time, so they always see the current working tree. Exit 0 held / 1 violation / 2 inconclusive. known_findings.json lists genuine defects (fixed or known).",
+        "notes": "All checks import the repository from $VERIF_REPO/src (default /repo/src) at run time, so they always see the current working tree. Exit 0 held / 1 violation / 2 inconclusive. known_findings.json lists genuine defects (fixed or known). Every case of every check also runs inside the call-history monitor vlib/purity.py (recorded calls of the pure numerical functions are repeated at the end of the case and must return the same value).",
     }
     if not na:
         m.pop("not_applicable")
